@@ -44,6 +44,19 @@ const (
 	sinkV4 = "203.0.113.166"
 	sinkV6 = "2001:db8:bad::53"
 
+	// Deep worlds (WorldSpec.Deep) add an honest zone corp.test. (server "corp")
+	// that delegates a.b.corp.test. — TWO labels down in one step — to the
+	// attacker's servers, and an honest zone partner.test. whose only NS host
+	// is ns.sib.b.corp.test. (an honest name of corp.test., published without
+	// glue by test.). The attacker is authoritative for evil.test. and
+	// a.b.corp.test. and nothing else.
+	zCorp    = "corp.test."
+	zDeep    = "a.b.corp.test."
+	zPartner = "partner.test."
+	sibNS    = "ns.sib.b.corp.test."
+
+	addrCorp4, addrCorp6 = "198.51.100.40", "2001:db8::40"
+
 	evilTTL = 86400
 	// evilNS is an NS target inside Z (so that glue for it is in the
 	// delegating zone's bailiwick) whose rdata occurrences are evil markers.
@@ -57,15 +70,20 @@ var (
 
 // WorldSpec is the serialisable description of one universe + pipeline.
 type WorldSpec struct {
-	Mode    string `json:"mode"`     // off | insecure | signed
-	QMin    int    `json:"qmin"`     // cfg.QnameMinLevel
-	IPv6    bool   `json:"ipv6"`     // cfg.IPv6Access
-	TwoEvil bool   `json:"two_evil"` // Z served by two servers, both malicious
-	Warm    bool   `json:"warm"`     // victim names resolved (and cached) before the attack
+	Mode    string `json:"mode"`           // off | insecure | signed
+	QMin    int    `json:"qmin"`           // cfg.QnameMinLevel
+	IPv6    bool   `json:"ipv6"`           // cfg.IPv6Access
+	TwoEvil bool   `json:"two_evil"`       // Z served by two servers, both malicious
+	Warm    bool   `json:"warm"`           // victim names resolved (and cached) before the attack
+	Deep    bool   `json:"deep,omitempty"` // corp.test. / a.b.corp.test. / partner.test. exist (see zDeep)
 }
 
 func (s WorldSpec) String() string {
-	return fmt.Sprintf("%s/qmin%d/v6=%v/evil2=%v/warm=%v", s.Mode, s.QMin, s.IPv6, s.TwoEvil, s.Warm)
+	d := ""
+	if s.Deep {
+		d = "/deep"
+	}
+	return fmt.Sprintf("%s/qmin%d/v6=%v/evil2=%v/warm=%v%s", s.Mode, s.QMin, s.IPv6, s.TwoEvil, s.Warm, d)
 }
 
 type world struct {
@@ -77,6 +95,15 @@ type world struct {
 	victim *zm.Zone
 	evils  []*authsim.Server
 	seq    atomic.Int64
+
+	// deep worlds only
+	corp    *zm.Zone
+	deep    *zm.Zone
+	partner *zm.Zone
+	corpSrv *authsim.Server
+
+	// per-case attack state shared between a kind's Install and Attack
+	gate *authsim.Gate
 
 	sentMu sync.Mutex
 	sent   []string // summaries of the first scripted (attack) messages the evil servers built
@@ -101,6 +128,34 @@ func genWorld(rng *rand.Rand, needV6 bool) WorldSpec {
 	s.TwoEvil = rng.IntN(4) == 0
 	s.Warm = rng.IntN(2) == 0
 	return s
+}
+
+// allLocalInterfaceAddrs lists EVERY non-loopback address of the machine's
+// interfaces (both families, link-local included) — the set sdns's isLocalIP
+// is built from, minus loopback (which usableAddr rejects on its own).
+func allLocalInterfaceAddrs() (out []netip.Addr) {
+	addrs, err := net.InterfaceAddrs()
+	if err != nil {
+		return nil
+	}
+	seen := map[netip.Addr]bool{}
+	for _, a := range addrs {
+		n, ok := a.(*net.IPNet)
+		if !ok {
+			continue
+		}
+		ip, ok := netip.AddrFromSlice(n.IP)
+		if !ok {
+			continue
+		}
+		ip = ip.Unmap().WithZone("")
+		if ip.IsLoopback() || ip.IsUnspecified() || seen[ip] {
+			continue
+		}
+		seen[ip] = true
+		out = append(out, ip)
+	}
+	return out
 }
 
 // localInterfaceAddrs picks one non-loopback address per family from the
@@ -151,6 +206,24 @@ func buildWorld(spec WorldSpec) *world {
 	u.Delegate(w.tld, w.evil, authsim.DelegOpts{NSTTL: 600, DSTTL: 600})
 	u.Delegate(w.tld, w.victim, authsim.DelegOpts{NSTTL: 600, DSTTL: 600})
 
+	if spec.Deep {
+		sc := u.AddServer("corp", addrCorp4, addrCorp6)
+		w.corpSrv = sc
+		w.corp = u.AddZone(zm.Spec{Apex: zCorp, Signed: leaf, NSEC3: n3}, sc)
+		w.deep = u.AddZone(zm.Spec{Apex: zDeep, Signed: false}, w.evils...)
+		w.partner = u.AddZone(zm.Spec{Apex: zPartner, Signed: leaf, NSEC3: n3, NSHosts: []string{sibNS}}, sc)
+		u.Delegate(w.tld, w.corp, authsim.DelegOpts{NSTTL: 600, DSTTL: 600})
+		u.Delegate(w.corp, w.deep, authsim.DelegOpts{NSTTL: 600, DSTTL: 600})
+		u.Delegate(w.tld, w.partner, authsim.DelegOpts{NSTTL: 600, DSTTL: 600, NS: []zm.NSHost{{Name: sibNS}}, NoGlue: true})
+		w.corp.AddMarked("www.corp.test.", dns.TypeA, 60)
+		w.corp.AddAddr(sibNS, net.ParseIP(addrCorp4), 60)
+		w.corp.AddAddr(sibNS, net.ParseIP(addrCorp6), 60)
+		w.partner.AddMarked("www.partner.test.", dns.TypeA, 60)
+		// the attacker's own deep zone
+		w.deep.AddMarked("w.a.b.corp.test.", dns.TypeTXT, 60)
+		w.deep.AddMarked("w.a.b.corp.test.", dns.TypeA, 60)
+	}
+
 	// honest victim data (what the follow-ups must see)
 	w.victim.AddMarked("www.victim.test.", dns.TypeA, 60)
 	w.victim.AddMarked("www.victim.test.", dns.TypeAAAA, 60)
@@ -187,7 +260,7 @@ func buildWorld(spec WorldSpec) *world {
 // zones, an authoritative evil-marked answer for everything else.
 func (w *world) outOfZoneAnswer(q, honest *dns.Msg) *dns.Msg {
 	name := zm.Canon(q.Question[0].Name)
-	if zm.IsSub(zEvil, name) {
+	if w.attackerOwns(name) {
 		return honest
 	}
 	m := new(dns.Msg)
@@ -203,6 +276,11 @@ func (w *world) outOfZoneAnswer(q, honest *dns.Msg) *dns.Msg {
 		m.Ns = []dns.RR{w.evilSOA(name)}
 	}
 	return m
+}
+
+// attackerOwns: name lies inside a zone the evil servers are authoritative for.
+func (w *world) attackerOwns(name string) bool {
+	return zm.IsSub(zEvil, name) || (w.spec.Deep && zm.IsSub(zDeep, name))
 }
 
 func hdr(owner string, t uint16, ttl uint32) dns.RR_Header {
@@ -347,6 +425,13 @@ func (w *world) clearScripts() {
 	for _, s := range w.evils {
 		s.ClearScript(false)
 		s.SetDefault(authsim.Action{Label: "evil-out-of-zone-default", Tamper: w.outOfZoneAnswer})
+	}
+	if w.gate != nil {
+		w.gate.Release()
+	}
+	if w.corpSrv != nil {
+		// the honest server is only ever GATED (a delay at the socket), never tampered with
+		w.corpSrv.ClearScript(false)
 	}
 }
 
